@@ -20,4 +20,4 @@ mod c03_sender;
 mod c07_ports;
 mod c09_wire;
 mod c10_open;
-mod c99_tmp;
+mod c13_vec;
